@@ -59,3 +59,27 @@ pub fn catch<T>(f: impl FnOnce() -> T + std::panic::UnwindSafe) -> Result<T, Str
         }
     }
 }
+
+/// run f over items on `jobs` threads, results ordered by index
+pub fn par_map<F>(items: &[Value], jobs: usize, f: F) -> Vec<Value>
+where
+    F: Fn(usize, &Value) -> Value + Sync,
+{
+    let results = std::sync::Mutex::new(Vec::new());
+    let next = std::sync::atomic::AtomicUsize::new(0);
+    std::thread::scope(|sc| {
+        for _ in 0..jobs.max(1) {
+            sc.spawn(|| loop {
+                let i = next.fetch_add(1, std::sync::atomic::Ordering::SeqCst);
+                if i >= items.len() {
+                    break;
+                }
+                let r = f(i, &items[i]);
+                results.lock().unwrap().push((i, r));
+            });
+        }
+    });
+    let mut rs = results.into_inner().unwrap();
+    rs.sort_by_key(|r| r.0);
+    rs.into_iter().map(|r| r.1).collect()
+}
